@@ -199,7 +199,7 @@ def fmt(t, depth=0):
         return "(%s %s %s)" % (f(t[2]), t[1], f(t[3]))
     if k == "un":
         return "%s%s" % (t[1], f(t[2]))
-    if k == "cast":
+    if k in ("cast", "xcast"):
         return "(%s)%s" % (t[1], f(t[2]))
     if k in ("call", "ucall"):
         name = t[1] if k == "call" else t[2]
@@ -711,7 +711,12 @@ class Engine:
                 if is_const(v) and "cv" in e:
                     outs.append((s, C(e["cv"])))
                 elif tt.get("w") and stt.get("w") and tt["w"] < stt["w"]:
-                    outs.append((s, ("cast", tt.get("u") or tt.get("c"), v)))
+                    # narrowing: 'xcast' when written explicitly in the source, 'cast' when implicit
+                    outs.append((s, ("xcast" if (e["k"] == "cast" or e.get("poe")) else "cast", tt.get("u") or tt.get("c"), v)))
+                elif (e["k"] == "cast" or e.get("poe")) and tt.get("w") and stt.get("w") and tt["w"] == stt["w"] and bool(tt.get("sg")) != bool(stt.get("sg")) and tt.get("k") != "bool":
+                    # an EXPLICIT same-width signedness change written in the source: kept visible (implicit usual
+                    # arithmetic conversions are what the plain expression performs too and stay transparent)
+                    outs.append((s, ("xcast", tt.get("u") or tt.get("c"), v)))
                 else:
                     outs.append((s, v))
             return outs
@@ -945,7 +950,7 @@ class Engine:
         else:
             r = ("ucall", next(self.uid), name, tuple(av), thisv)
         vals = [self.load(st, a) if (isinstance(a, tuple) and a and a[0] in ("var", "tmp") and a in st.mem) else a for a in av]
-        self.emit(st, "CALL", name, list(av), thisv, loc=loc, extra={"ret": r, "fnid": (e.get("fn") or {}).get("id"), "rt": e.get("t"), "argvals": vals})
+        self.emit(st, "CALL", name, list(av), thisv, loc=loc, extra={"ret": r, "fnid": (e.get("fn") or {}).get("id"), "rt": e.get("t"), "argvals": vals, "ta": (e.get("fn") or {}).get("ta")})
         return [(st, r)]
 
     def inline(self, st, fn, thisv, av, pmodes, loc, want_lv=False):
